@@ -5,6 +5,7 @@ mod corpus;
 mod gen;
 mod hist;
 mod unit;
+mod unknown;
 mod wire;
 mod world;
 
